@@ -1247,6 +1247,11 @@ def run(ctx):
     for rec in recs:
         if rec.tag != "corpus" and ctx.rng.random() < 0.5:
             rec.pre, rec.post = ctx.rng.choice([(1, 0), (2, 0), (3, 1), (0, 2), (1, 1), (2, 3)])
+    # the layout may be selected in a later session than the one that created the dataset (SD, every layout call)
+    for rec in recs:
+        if rec.tag != "corpus" and rec.api == 0 and rec.cfg["kind"] in (1, 2, 3, 4, 5, 7) and ctx.rng.random() < 0.3:
+            rec.late = 1
+    stats["_late"] = {"layout_selected_in_a_later_session": sum(1 for x in recs if x.late)}
     stats["_attrs"] = {"records_with_other_attributes": sum(1 for x in recs if x.pre or x.post),
                        "fill_not_first_attribute": sum(1 for x in recs if x.pre and x.hasfill)}
     check_records(ctx, recs, "main", stats)
